@@ -79,6 +79,17 @@ Serials(d) ==
   \cup {d.acts[k].serial : k \in DOMAIN d.acts}
 
 PendIds == [i \in DOMAIN pend |-> pend[i].id]
+\* C11 / C12: the plugin objects of a per-cgroup instance are constructed with the arguments as configured; only a
+\* ACTION without a "cgroup" argument of its own is given the instance's cgroup (dflt)
+RECURSIVE JoinPath(_)
+JoinPath(p) == IF p = <<>> THEN "" ELSE IF Len(p) = 1 THEN p[1] ELSE p[1] \o "/" \o JoinPath(Tail(p))
+PlugCgs(d, dflt) ==
+  LET own(pl) == IF pl.cg # "" THEN pl.cg ELSE dflt IN
+  \* (detectors are re-created with exactly their configured arguments; they learn their cgroup from the context)
+  FlattenSeq([g \in DOMAIN d.groups |-> [k \in DOMAIN d.groups[g].dets |-> d.groups[g].dets[k].cg]])
+    \o [k \in DOMAIN d.acts |-> own(d.acts[k])]
+PendCgOk(d, dflt) ==
+  \A i \in DOMAIN pend : "cg" \in DOMAIN pend[i] => pend[i].cg = PlugCgs(d, dflt)[i]
 SerialFor(id) == pend[CHOOSE i \in DOMAIN pend : pend[i].id = id].serial
 
 \* A definition whose plugin objects are the ones announced in pend.
@@ -192,6 +203,16 @@ PluginInit(serial, id) ==
   /\ serial \notin live
   /\ live' = live \cup {serial}
   /\ pend' = Append(pend, [serial |-> serial, id |-> id])
+  /\ UNCHANGED <<now, phase, defs, st, bases, insts, hooks, world, agenda, cur, ctx,
+                 invoking, uuidCtr, uuidMap, nextRk, cgVisited, stats, tickFired, lastRet,
+                 tlog, tpre, lastStop, ops>>
+
+\* the same, with the "cgroup" argument the object was constructed with (recorded traces; the model's own
+\* announcements carry none and the rule below is then void)
+PluginInitCg(serial, id, cg) ==
+  /\ serial \notin live
+  /\ live' = live \cup {serial}
+  /\ pend' = Append(pend, [serial |-> serial, id |-> id, cg |-> cg])
   /\ UNCHANGED <<now, phase, defs, st, bases, insts, hooks, world, agenda, cur, ctx,
                  invoking, uuidCtr, uuidMap, nextRk, cgVisited, stats, tickFired, lastRet,
                  tlog, tpre, lastStop, ops>>
@@ -521,6 +542,7 @@ CgStep ==
                   /\ UNCHANGED <<defs, st, lastStop, insts, nextRk, pend>>
              ELSE \* new instance: clones of all plugins have just been constructed
                   /\ PendIds = PlugIds(defs[rk])
+                  /\ PendCgOk(defs[rk], JoinPath(path))
                   /\ defs' = Append(defs, Bind(InstDef(rk, path)))
                   /\ st' = Append(st, FreshSt)
                   /\ lastStop' = Append(lastStop, NoStop)
